@@ -66,25 +66,30 @@ def check(run):
                   {"srv": g, "kind": "own0-prefixed"}, {"srv": imp, "kind": "pin-of", "of": g}]
     inputs = [dict({"i": k, "srv": c["srv"], "kind": c["kind"]}, **dict(({"nested": dict(c["nested"], i=100000 + k)} if "nested" in c else {}), **({"of": c["of"]} if "of" in c else {}),
                           **({"scheme": c["scheme"]} if "scheme" in c else {}), **({"proxy": True} if c.get("proxy") else {}), **({"redirect": c["redirect"]} if "redirect" in c else {}))) for k, c in enumerate(calls)]
-    res, err = vlib.run_drv(drv, "pin", [header] + inputs, args=[d], env=env, timeout=120)
+    res, err = vlib.run_drv(drv, "pin", [header] + inputs, args=[d], env=env, timeout=900)
     if err or not res or len(res) != len(inputs) + 1:
         run.oblige("pin driver ran all calls", False, "%s (%d results)" % (err, len(res or [])))
         return
     spkis = res[0]["spkis"]
     run.oblige("process-wide HTTP defaults untouched at start", res[0].get("global_before", "") == "", res[0].get("global_before", ""))
     rs = res[1:]
-    rbad = [{"called": inputs[k]["srv"], "fingerprint": "the called server's own pin", "redirected_to_server": inputs[k]["redirect"],
-             "the_other_server_received_a_request": True} for k in redirs
-            if rs[k].get("redir_hit") and inputs[k]["redirect"] != inputs[k]["srv"] and spkis[inputs[k]["redirect"]][0] != spkis[inputs[k]["srv"]][0]]
-    for b in rbad[:1]:
-        run.violation("redirect-unpinned", "a call pinned to one server's key followed that server's redirect to an https server with ANOTHER key and sent it a request",
-                      {"stream": "pin", "input": b, "detail": rbad[:5]})
-    run.oblige("redirects: %d pinned calls whose server answers 302 to another https server (other key) or to itself - no server with another key receives "
-               "a request" % len(redirs), not rbad and sum(1 for k in redirs if inputs[k]["redirect"] == inputs[k]["srv"] and rs[k].get("hit")) > 0, json.dumps(rbad[:3]))
+    def rterm(i, r):
+        hops = [i["srv"], i["redirect"]]
+        hp = "; ".join("([%s], %s)" % ("; ".join(vlib.coq_str(bytes.fromhex(x)) for x in spkis[h]), str(bool(servers[h]["trusted"])).lower()) for h in hops)
+        return "mkr %s [%s] [%s; %s] %s" % (vlib.coq_str(bytes.fromhex(r.get("fp", ""))), hp, str(bool(r.get("hit"))).lower(), str(bool(r.get("redir_hit"))).lower(),
+                                           str(bool(r.get("global"))).lower())
+    rin = [dict(inputs[k], chainlen=servers[inputs[k]["srv"]]["chainlen"], target_has_same_key=spkis[inputs[k]["redirect"]][0] == spkis[inputs[k]["srv"]][0]) for k in redirs]
+    vlib.judge_stream(run, "redirects", IMPORTS, "rcase", rin, [rs[k] for k in redirs], rterm,
+                      {1: "a call pinned to one server's key followed that server's redirect to an https server with ANOTHER key and sent it a request",
+                       2: "process-wide HTTP defaults changed", 10: "Model/Pin.hops_hit differs from which servers received a request"}, (),
+                      "pinned calls whose server answers 302 to another https server (other key) or to itself (same key): which servers receive a request is "
+                      "Model/Pin.go_hops - every connection of the call is held to the pin", judge="judge_redir", key_fn=lambda i: "%d-%d" % (i["srv"], i["redirect"]))
     nprox = sum(1 for i in inputs if i.get("proxy"))
     run.oblige("calls naming the C2 c2.example really went through the forwarding proxy (%d CONNECTs for %d such calls which got as far as connecting)" % (
                max([r.get("proxied", 0) for r in rs] or [0]), nprox), nprox == 0 or max([r.get("proxied", 0) for r in rs] or [0]) >= nprox // 2, "")
     run.cov["proxied_connects"] = max([r.get("proxied", 0) for r in rs] or [0])
+    run.cov["calls_stopped_by_the_watchdog"] = [dict(inputs[k], ms=r.get("ms")) for k, r in enumerate(rs) if r.get("r") == "hung"][:10]
+    run.cov["slowest_call_ms"] = max([r.get("ms", 0) for r in rs] or [0])
     # a nested call is a call of its own
     for i, r in list(zip(inputs, rs)):
         if "nested" in i and r.get("nested"):
